@@ -1,6 +1,6 @@
 From Coq Require Import Extraction ExtrOcamlBasic ZArith List.
-From LP Require Import Num C01_Model C09_Model C09_Evals.
+From LP Require Import Num C01_Model C09_Model C09_Model2 C09_Evals.
 Extraction Language OCaml.
-Extraction "C09_m.ml" init fresh step step_steffen build run locate_kind init2 step2
+Extraction "C09_m.ml" init fresh step step_steffen step_full build run locate_kind init2 step2
   construct1 construct1_rows construct1_default construct2 construct2_rows construct2_default dflt_dim sstep get_slot linear_space save_ops save_ops2
   Z.of_nat Z.to_nat.
